@@ -52,16 +52,34 @@ pub struct ScriptState {
     pub fds_capacity_min: usize,
 }
 
+impl ScriptState {
+    /// Drops unconsumed read events, closing the descriptors they still own.
+    fn drop_reads(&mut self) {
+        for ev in self.reads.drain(..) {
+            if let ReadEv::Data(_, fds) | ReadEv::Eof(fds) = ev {
+                for fd in fds {
+                    // SAFETY: the descriptor was created by the harness for this event and never handed out.
+                    unsafe { libc::close(fd) };
+                }
+            }
+        }
+    }
+}
+
+impl Drop for ScriptState {
+    fn drop(&mut self) {
+        self.drop_reads();
+    }
+}
+
 #[derive(Clone)]
 pub struct Script(pub Rc<RefCell<ScriptState>>);
 
 impl Script {
     pub fn new() -> Self {
-        let st = ScriptState {
-            iov_min: usize::MAX,
-            fds_capacity_min: usize::MAX,
-            ..Default::default()
-        };
+        let mut st = ScriptState::default();
+        st.iov_min = usize::MAX;
+        st.fds_capacity_min = usize::MAX;
         Script(Rc::new(RefCell::new(st)))
     }
     pub fn push_read(&self, ev: ReadEv) {
@@ -82,7 +100,7 @@ impl Script {
             .sum()
     }
     pub fn clear_reads(&self) {
-        self.0.borrow_mut().reads.clear();
+        self.0.borrow_mut().drop_reads();
     }
     pub fn recv_calls(&self) -> u64 {
         self.0.borrow().recv_calls
@@ -197,6 +215,9 @@ impl ScmSocket for Script {
                 }
                 let k = pass.len().min(fds.len());
                 fds[..k].copy_from_slice(&pass[..k]);
+                for extra in &pass[k..] {
+                    libc::close(*extra); // like the kernel: descriptors that do not fit are discarded
+                }
                 st.read_sizes.push(n);
                 Ok((n, k))
             }
